@@ -26,8 +26,41 @@ def calls_in(t, name):
     return [x for x in mir.subterms(t) if mir.is_call(x, name)]
 
 
-def run(prog):
+def count_modulus(prog):
+    """the unweighted model count is computed in a finite field and printed as a number: it is exact only while the
+    count is below the modulus.  The counting functions of weighted_model_count must use a modulus at least as large
+    as the largest 64-bit prime the library exports (U64_LARGEST): with a smaller one formulas with ≥ P models print
+    the count modulo P."""
+    import re
     out = []
+    exported = {k.split("::")[-1]: int(v["val"]) for k, v in prog.consts.items() if "constants::primes::" in k and str(v.get("val", "")).isdigit()}
+    if "U64_LARGEST" not in exported:
+        raise CheckerError("MP: constants::primes::U64_LARGEST not found")
+    need = exported["U64_LARGEST"]
+    n = 0
+    for f in prog.bin_fns:
+        if f.name not in ("single_wmc", "partial_wmcs") or not any(b["term"]["k"] == "call" for b in f.blocks):
+            continue
+        mods = set()
+        for cs in f.terms.calls:
+            for m in re.findall(r"FiniteField<(\d+)>", str(cs.callee.targs) + str(cs.callee.res)):
+                mods.add(int(m))
+        if not mods:
+            continue
+        n += 1
+        small = sorted(m for m in mods if m < need)
+        names = {v: k for k, v in exported.items()}
+        out.append(inst("MP", "%s:count-modulus" % f.npath, VIOLATION if small else OK, f, None,
+                        ("the unweighted count is taken modulo %s (%s), smaller than the largest exported 64-bit prime: a formula with "
+                         "that many models or more prints a wrapped count" % (small[0], names.get(small[0], "?"))) if small else
+                        "count modulus %s ≥ U64_LARGEST" % sorted(mods)))
+    if n < 2:
+        raise CheckerError("MP: counting functions of weighted_model_count not found (%d)" % n)
+    return out
+
+
+def run(prog):
+    out = count_modulus(prog)
     # ---- bottomup_cnf_to_bdd
     fn = prog.find1(name="main", unit="bottomup_cnf_to_bdd-bin")
     te = fn.terms
